@@ -1652,3 +1652,29 @@ def adopt_inherited_helpers(modules: List[Tuple[str, ast.Module]], known: Set[st
                     own.add(m.name)
                     count += 1
     return count
+
+
+# ---------------------------------------------------------------- super()
+def explicit_super(tree: ast.Module) -> int:
+    """`super().m(a, ..)` in an instance method of a class with exactly one base `B` is
+    `B.m(self, a, ..)`: the spelling the rules (and most of the package) use."""
+    count = 0
+    for cls in [n for n in ast.walk(tree) if isinstance(n, ast.ClassDef)]:
+        if len(cls.bases) != 1 or not isinstance(cls.bases[0], (ast.Name, ast.Attribute)) or cls.keywords:
+            continue
+        base = cls.bases[0]
+        for m in cls.body:
+            if not isinstance(m, ast.FunctionDef) or not m.args.args:
+                continue
+            if any(ast.unparse(d) in ("staticmethod", "classmethod") for d in m.decorator_list):
+                continue
+            me = m.args.args[0].arg
+            for c in ast.walk(m):
+                if isinstance(c, ast.Call) and isinstance(c.func, ast.Attribute) and isinstance(c.func.value, ast.Call) and isinstance(c.func.value.func, ast.Name) and c.func.value.func.id == "super" and not c.func.value.args and not c.func.value.keywords:
+                    # not inside a nested function or class (super() there means something else)
+                    c.func.value = ast.copy_location(clone_ast(base), c.func.value)
+                    c.args = [ast.copy_location(ast.Name(id=me, ctx=ast.Load()), c)] + list(c.args)
+                    count += 1
+    if count:
+        ast.fix_missing_locations(tree)
+    return count
